@@ -4,6 +4,7 @@ SPECIFICATION Spec
 CONSTANTS
     NThreads = 2
     StoreOf <- MC_Store3
+    InstKind <- MC_Kind3
     NKeys = 2
     PropChoices <- MC_Props2
     Kinds <- MC_AllKinds
